@@ -7,6 +7,7 @@ import (
 	"fmt"
 	"os"
 	"path/filepath"
+	"strings"
 	"sync"
 	"syscall"
 	"testing"
@@ -588,5 +589,179 @@ func TestConcurrentCalls(t *testing.T) {
 		ev.Case(true, ev.Hash("conc", fmt.Sprint(g, size, move)), func() string {
 			return fmt.Sprintf("%d concurrent %s calls on unrelated files of about %d bytes", g, op, size)
 		})
+	})
+}
+
+// TestHistories: the calls of one process are not strangers to each other - the same pair of paths is copied again
+// after the destination was replaced by a link to the source, a file is moved back and forth, a name that was a file
+// becomes a link and a file again. A handful of names in one directory (and one on the other file system, when there
+// is one), set-up steps done by the harness itself (write, hard link, symbolic link with an absolute target, remove)
+// and CopyFile / MoveFile calls between any two of the names, spelled the same way every time. Every call is judged
+// on the contents read just before it: nil => the destination reads as the source read (CopyFile: and so does the
+// source, and n is its length), an error => the source reads as before; and a regular file that was not named in the
+// call and is not another name of the destination's file reads as before (round twenty-two, C18-agent22: a same-file
+// guard that remembers what it found for a pair of paths the first time).
+func TestHistories(t *testing.T) {
+	rt.Check(t, 150, 40000, func(t *rapid.T) {
+		dir, err := os.MkdirTemp("", "c18h-")
+		if err != nil {
+			t.Skip("no temporary directory")
+		}
+		defer os.RemoveAll(dir)
+		names := []string{filepath.Join(dir, "a.bin"), filepath.Join(dir, "b.bin"), filepath.Join(dir, "c.bin"), filepath.Join(dir, "d.bin")}
+		local := len(names)
+		if otherFS != "" {
+			if odir, err := os.MkdirTemp(otherFS, "c18h-"); err == nil {
+				defer os.RemoveAll(odir)
+				names = append(names, filepath.Join(odir, "e.bin"))
+			}
+		}
+		short := func(p string) string { return filepath.Base(p) }
+		var hist []string
+		salt := rapid.Uint64().Draw(t, "salt")
+		lastX, lastY := 0, 1
+		calls, repeats, relinked := 0, 0, false
+		steps := rapid.IntRange(3, 14).Draw(t, "steps")
+		// two files to begin with
+		os.WriteFile(names[0], content(3000, salt), 0o644)
+		os.WriteFile(names[1], content(1200, salt+1), 0o644)
+		hist = append(hist, "a.bin and b.bin written")
+		pair := func(label string, limit int) (int, int) {
+			if rapid.Bool().Draw(t, label+"SamePairAsLastCall") {
+				if rapid.IntRange(0, 3).Draw(t, label+"Reversed") == 0 {
+					return lastY, lastX
+				}
+				return lastX, lastY
+			}
+			return rapid.IntRange(0, limit-1).Draw(t, label+"X"), rapid.IntRange(0, limit-1).Draw(t, label+"Y")
+		}
+		for i := 0; i < steps; i++ {
+			salt++
+			switch rapid.SampledFrom([]string{"copy", "copy", "copy", "move", "move", "write", "link", "link", "symlink", "symlink", "remove"}).Draw(t, "step") {
+			case "write":
+				p := names[rapid.IntRange(0, len(names)-1).Draw(t, "name")]
+				n := rapid.SampledFrom([]int{0, 1, 100, 5000, 70000}).Draw(t, "size")
+				os.Remove(p)
+				if err := os.WriteFile(p, content(n, salt), 0o644); err == nil {
+					hist = append(hist, fmt.Sprintf("write %s (%d bytes)", short(p), n))
+				}
+			case "link":
+				x, y := pair("link", local)
+				if fi, err := os.Lstat(names[x]); x == y || err != nil || !fi.Mode().IsRegular() {
+					continue
+				}
+				os.Remove(names[y])
+				if err := os.Link(names[x], names[y]); err == nil {
+					hist = append(hist, fmt.Sprintf("%s replaced by a hard link to %s", short(names[y]), short(names[x])))
+					relinked = true
+				}
+			case "symlink":
+				x, y := pair("symlink", len(names))
+				if x == y {
+					continue
+				}
+				os.Remove(names[y])
+				if err := os.Symlink(names[x], names[y]); err == nil {
+					hist = append(hist, fmt.Sprintf("%s replaced by a symbolic link to %s", short(names[y]), short(names[x])))
+					relinked = true
+				}
+			case "remove":
+				p := names[rapid.IntRange(0, len(names)-1).Draw(t, "name")]
+				if os.Remove(p) == nil {
+					hist = append(hist, "remove "+short(p))
+				}
+			case "copy", "move":
+				x, y := pair("call", len(names))
+				if x == lastX && y == lastY && calls > 0 {
+					repeats++
+				}
+				lastX, lastY = x, y
+				move := false
+				if len(hist) > 0 && rapid.IntRange(0, 2).Draw(t, "moveInstead") == 0 {
+					move = true
+				}
+				// what every name reads as, and which file it is, just before the call
+				pre := make([][]byte, len(names))
+				preOK := make([]bool, len(names))
+				preInfo := make([]os.FileInfo, len(names))
+				regular := make([]bool, len(names))
+				for k, p := range names {
+					if b, err := os.ReadFile(p); err == nil {
+						pre[k], preOK[k] = b, true
+					}
+					preInfo[k], _ = os.Stat(p)
+					if fi, err := os.Lstat(p); err == nil && fi.Mode().IsRegular() {
+						regular[k] = true
+					}
+				}
+				op := "CopyFile"
+				if move {
+					op = "MoveFile"
+				}
+				what := fmt.Sprintf("%s(%s, %s)", op, short(names[x]), short(names[y]))
+				var n int64
+				var callErr error
+				var panicked any
+				func() {
+					defer func() { panicked = recover() }()
+					if move {
+						callErr = osutil.MoveFile(names[x], names[y])
+					} else {
+						n, callErr = osutil.CopyFile(names[x], names[y])
+					}
+				}()
+				calls++
+				hist = append(hist, fmt.Sprintf("%s = %v", what, callErr))
+				fail := func(format string, args ...any) {
+					t.Fatalf("history:\n  %s\n%s: %s", strings.Join(hist, "\n  "), what, fmt.Sprintf(format, args...))
+				}
+				if panicked != nil {
+					fail("panicked: %v", panicked)
+				}
+				for k, p := range names {
+					if k == x || k == y || !regular[k] || !preOK[k] {
+						continue
+					}
+					if preInfo[y] != nil && preInfo[k] != nil && os.SameFile(preInfo[y], preInfo[k]) {
+						continue // another name of the file the destination named: overwritten with it, as documented
+					}
+					if got, err := os.ReadFile(p); err != nil || !bytes.Equal(got, pre[k]) {
+						fail("%s, a regular file that was not named in the call and is not the destination's file under another name, read %d bytes before and reads %d now (err=%v)", short(p), len(pre[k]), len(got), err)
+					}
+				}
+				if !preOK[x] {
+					continue // the source could not be read: whatever the call says, there was nothing to lose
+				}
+				if callErr != nil {
+					if got, err := os.ReadFile(names[x]); err != nil || !bytes.Equal(got, pre[x]) {
+						fail("returned an error and the source, which read %d bytes before, reads %d now (err=%v)", len(pre[x]), len(got), err)
+					}
+					continue
+				}
+				got, err := os.ReadFile(names[y])
+				if err != nil || !bytes.Equal(got, pre[x]) {
+					fail("returned nil but the destination reads %d bytes (err=%v), not the %d bytes the source read when the call began", len(got), err, len(pre[x]))
+				}
+				if !move {
+					if n != int64(len(pre[x])) {
+						fail("returned n=%d for a source of %d bytes", n, len(pre[x]))
+					}
+					if got, err := os.ReadFile(names[x]); err != nil || !bytes.Equal(got, pre[x]) {
+						fail("returned nil but the source, which read %d bytes before, reads %d now (err=%v)", len(pre[x]), len(got), err)
+					}
+				}
+			}
+		}
+		if calls == 0 {
+			return
+		}
+		if repeats > 0 {
+			ev.Label("history:same_pair_of_paths_called_again")
+		}
+		if relinked {
+			ev.Label("history:a_name_replaced_by_a_link_between_calls")
+		}
+		ev.LabelN("history:calls", int64(calls))
+		ev.Case(repeats > 0 || relinked, ev.Hash(strings.Join(hist, ";")), func() string { return strings.Join(hist, "; ") })
 	})
 }
